@@ -28,15 +28,16 @@ Theorem C13_cross_flow_refuted :
 Proof. exact C13_cross_flow_refuted_proof. Qed.
 Print Assumptions C13_cross_flow_refuted.
 
-(* A second, independent window: popReadyTask polls the channel, then pops the overflow list under its
-   mutex; capacity+1 enqueues in between make the overflow task overtake the older channel tasks (no
-   queue is ever claimed in this witness, so it is not the idle-GC race). *)
-Theorem C13_overflow_overtake_refuted :
-  exists cap keys sched, 0 < cap /\
-    let s := run cap keys sched in
-    spec_safe (st_log s) = false /\ forallb (fun Q => negb (q_refs Q <? 0)%Z) (st_qs s) = true.
-Proof. exact C13_overflow_overtake_refuted_proof. Qed.
-Print Assumptions C13_overflow_overtake_refuted.
+(* The second window found by this check (popReadyTask polled the channel, then popped the overflow list
+   although capacity+1 enqueues had happened in between) is repaired in /repo 0813a51; the model follows
+   the source (extracted constant pop_overflow_rechecks_channel).  On the witness schedule the repaired code
+   now starts the channel task before the overflow task. *)
+Theorem C13_overflow_overtake_fixed :
+  let s := run 1 [1; 1; 1] witness_overtake in
+  spec_safe (st_log s) = true /\ started_tasks (st_log s) = [0; 1] /\ accepted_tasks (st_log s) = [0; 1; 2]
+  /\ (exists Q, nth_error (st_qs s) 0 = Some Q /\ q_over Q = [2]).
+Proof. exact C13_overflow_overtake_fixed_proof. Qed.
+Print Assumptions C13_overflow_overtake_fixed.
 
 Theorem C13_exactly_once_in_order_full_is_false : ~ C13_exactly_once_in_order_full.
 Proof. exact C13_full_is_false. Qed.
